@@ -1031,7 +1031,14 @@ def rule_smart_flags(ctx):
             ctx.fail_closed("%s: no decision path runs under CaseMatching::Smart" % label)
 
 
+def rule_fold_lookup(ctx):
+    """Smart case stores a needle unfolded when `is_upper_case` says one of its characters has a folding: is_upper_case / to_lower_case must be exactly `has an entry in the fold table` / `its value` (shared with C16.dispatch)."""
+    from props.c16 import rule_dispatch as r
+    r(ctx)
+
+
 def rules(ctx):
+    ctx.run_rule("C14.fold-lookup", rule_fold_lookup)
     ctx.run_rule("C14.parse-twins", rule_parse_twins)
     ctx.run_rule("C14.new-is-literal", rule_new_is_literal)
     ctx.run_rule("C14.marker-table", rule_marker_table)
